@@ -32,6 +32,9 @@ type svIn struct {
 	Orders     int      `json:"orders"` // how many node-name orderings per scenario
 }
 
+// credentials put into the supervised node (the secrets family sets its sentinels here)
+var svSourcePassword, svTargetPassword = "pw", ""
+
 type scriptConn struct {
 	do func() (interface{}, error)
 }
@@ -118,7 +121,7 @@ func svRun(in []byte) (interface{}, error) {
 					}}, nil
 				}
 				sup := slotsupervisor.VerifNew(slot.SyncNode{Id: ci, Source: names[0], Slaves: append([]string{}, names[1:]...),
-					SourcePassword: "pw", SlotLeftBoundary: 0, SlotRightBoundary: 100}, factory, cfg.MaxRetries)
+					SourcePassword: svSourcePassword, TargetPassword: svTargetPassword, Target: []string{"10.2.2.2:6379"}, SlotLeftBoundary: 0, SlotRightBoundary: 100}, factory, cfg.MaxRetries)
 				type outT struct {
 					node *slot.SyncNode
 					err  error
